@@ -65,12 +65,26 @@ def pcName : PC → String
   | .idle => "idle" | .holdS => "holdS" | .holdH => "holdH" | .holdE => "holdE" | .holdA => "holdA" | .holdD => "holdD"
   | _ => "busy"
 
-def runScenario (opsPer : List (List (String × Op))) (schedule : List Nat) : String :=
-  let ths := opsPer.map fun ops => advance { pc := .idle, ops := ops, cur := "", res := "" }
-  let s0 : Sys := { sh := Sh.init, ths := ths, log := [] }
+/-- run threads 0..k-1 up to their first atomic operation (the harness's `prime()`) -/
+def primeFrom (s : Sys) : Nat → Sys
+  | 0 => s
+  | k + 1 =>
+    let s' := primeFrom s k
+    match s'.ths[k]? with
+    | some t => { s' with ths := s'.ths.set k (advance t) }
+    | none => s'
+
+def initSys (opsPer : List (List (String × Op))) : Sys :=
+  { sh := Sh.init, ths := opsPer.map fun ops => { pc := .idle, ops := ops, cur := "", res := "" }, log := [] }
+
+def finalSys (opsPer : List (List (String × Op))) (schedule : List Nat) : Sys :=
+  let s0 := primeFrom (initSys opsPer) opsPer.length
   let s1 := schedule.foldl stepSys s0
   let total := (opsPer.map List.length).foldl (· + ·) 0
-  let s2 := drain (12 * total + 12) s1
+  drain (12 * total + 12) s1
+
+def runScenario (opsPer : List (List (String × Op))) (schedule : List Nat) : String :=
+  let s2 := finalSys opsPer schedule
   let log := if s2.log.isEmpty then "-" else ",".intercalate s2.log.reverse
   let res := ";".intercalate (s2.ths.map fun t => if t.res.isEmpty then "-" else t.res)
   let f := s2.sh
